@@ -199,6 +199,22 @@ impl Sim {
         let got = self.live_canon(h);
         self.stats.check(check);
         if *exp != got {
+            // Before blaming the statement: render both sides again, now. If a fresh replay and
+            // the live handle agree at this moment, the earlier difference came from rendering
+            // that is not a pure function of the statement (hidden global / per-thread state in
+            // the renderer) — another property's business, not a difference between the values.
+            let log = self.model[&h].log.clone();
+            let fresh = guarded(|| replay(&log))
+                .map_err(|e| Stop::Harness(format!("lineage replay panicked: {}", e)))?;
+            let exp2 = canon(&fresh, false);
+            let got2 = self.live_canon(h);
+            if exp2 == got2 {
+                self.stats.probe("rendering_depends_on_hidden_state_not_on_the_value");
+                let m = self.model.get_mut(&h).unwrap();
+                m.rep = Some(fresh);
+                m.exp = Some(Rc::new(exp2));
+                return Ok(());
+            }
             return Err(self.viol(
                 check,
                 format!("handle {} ({:?}): {}", h, self.model[&h].fam, diff(&exp, &got)),
@@ -656,7 +672,15 @@ impl Sim {
                                 let a = self.arena.borrow();
                                 let now = a.get(h).unwrap();
                                 self.stats.check("c10.atomic");
-                                if !self.cfg.allow_nan && now.eq_value(b) != Some(true) {
+                                // `==` is evidence of a change only if equality and cloning
+                                // work on this value at all (now.clone() == now); where they do
+                                // not — C15's and the value types' business — the rendering
+                                // comparison below is what decides
+                                let eq_usable = guarded(|| now.clone().eq_value(now) == Some(true)).unwrap_or(false);
+                                if !eq_usable {
+                                    self.stats.probe("equality_or_clone_unusable_on_this_value");
+                                }
+                                if eq_usable && !self.cfg.allow_nan && now.eq_value(b) != Some(true) {
                                     drop(a);
                                     return Err(self.viol(
                                         "c10.atomic",
